@@ -18,7 +18,7 @@ _sel = os.environ.get('VERIF_STUBS')
 ENABLED = tuple(_sel.split(',')) if _sel is not None else _ALL
 
 STUBS = {
-    'format': 'format()/f-string of a symbolic number -> "<sym>", of a tuple/list/dict/set -> "<container>" (error-message formatting would realise symbolic values)',
+    'format': 'format()/f-string of a symbolic number -> "<sym>", of a container -> "<container>", of a non-primitive object -> "<TypeName>" (error-message formatting would realise symbolic values)',
     'hash': 'hash() computed natively outside tracing (hash values are never observable in the properties)',
     'clock': 'time.time() -> constant 1000.0 (CrossHair would make it an unconstrained symbolic float)',
     'fn_globals': 'crosshair.fnutil.fn_globals tolerant of empty closure cells (enforcement crash on sqlalchemy closures)',
@@ -34,6 +34,8 @@ if 'format' in ENABLED:
         return '<sym>'
       if isinstance(obj, (tuple, list, dict, set, frozenset)):
         return '<container>'
+      if not isinstance(obj, (str, int, float, bool, bytes, type(None), _bl.AnySymbolicStr)):
+        return '<%s>' % type(obj).__name__      # arbitrary objects in error messages may hold symbolic values
     return _orig_format(obj, format_spec)
 
   _core._PATCH_REGISTRATIONS[format] = _format
